@@ -439,6 +439,13 @@ RARE_LINES = [
     ("c3", "ret", ""),
     ("c9", "leave", ""),
     ("66", "data16", ""),
+    # symbol annotations with blanks (objdump -C demangles), comments with several words
+    ("e8 31 01 00 00", "call", "401136", " <add(int, int)>"),
+    ("48 8d 05 ba 2e 00 00", "lea", "0x2eba(%rip),%rax", "        # 404010 <vtable for Shape+0x10>"),
+    ("e8 00 00 00 00", "call", "10a0", " <std::to_string[abi:cxx11](int)>"),
+    # prefixes handled by string rewriting: the hint / prefix order must not matter
+    ("66 2e 75 00", "data16 jne,pn", "0x4", "", "jne"),
+    ("66 3e 75 00", "data16 jne,pt", "0x4", "", "jne"),
 ]
 
 
@@ -446,10 +453,14 @@ def rare_shape_battery(run, prop):
     """A fixed battery of rare but real objdump line shapes (AVX-512 decorations, segment overrides with base/index, base-less
     scaled index, r8-r15, 16-bit pairs, '(bad)' as operand, operand-less lines with and without trailing blanks): address and
     mnemonic come out, operands are the reference normal form, no field contains a stream separator, nothing raises."""
-    for i, (raw, m, ops) in enumerate(RARE_LINES):
-        a = format(0x401000 + 8 * i, "x")
+    for i, entry in enumerate(RARE_LINES):
+        raw, m, ops = entry[:3]
+        tail = entry[3] if len(entry) > 3 else ""
+        a = format(0x401000 + 8 * i, "x") if i % 5 else "00" + format(0x401000 + 8 * i, "x")  # some zero-padded addresses
         for pad in (("", "   ") if not ops and m != "data16" else ("",)):
-            line = f"  {a}:\t{raw:<21}\t{(m + ' ').ljust(7) + ops if ops else m + pad}"
+            line = f"  {a}:\t{raw:<21}\t{(m + ' ').ljust(7) + ops + tail if ops else m + pad}"
+            if len(entry) > 4:
+                m = entry[4]   # the mnemonic that must come out (prefix and hint removed)
             got = real_parse(line)
             want_ops = [reference_normal_form(o) for o in split_top_level(ops)] if ops else []
             run.count("traces_validated_against_impl")
@@ -571,6 +582,22 @@ def c08_extra(ctx):
     run.count("traces_validated_against_impl")
     if stream != exp:
         run.failure("filter_chain/STREAM/-", f"listing with continuation/label/section lines gave stream {stream!r}, expected {exp!r}", {"kind": "lx_stream", "lines": lines, "expected": exp})
+    # the same listing as a FILE (LF, CRLF, no final newline), twice in one dump, and replaced in place by another listing
+    for nm, data in (("LF", "\n".join(lines) + "\n"), ("CRLF", "\r\n".join(lines) + "\r\n"), ("no_final_newline", "\n".join(lines))):
+        got = jasmapi.file_route_stream(data.encode())
+        run.count("traces_validated_against_impl")
+        if got != exp:
+            run.failure(f"filter_chain/FILE/{nm}", f"the listing stored with {nm} line ends gave stream {got!r}, expected {exp!r}", {"kind": "lx_stream", "lines": lines, "expected": exp})
+    got = jasmapi.file_route_stream(("\n".join(lines) + "\n") * 2)
+    run.count("traces_validated_against_impl")
+    if got != exp + exp:
+        run.failure("filter_chain/FILE/twice", f"the listing twice in one file (two objects in one dump) gave {got.count('|')} instructions, expected {2 * exp.count('|')}", {"kind": "lx_stream", "lines": lines, "expected": exp + exp})
+    l1 = "    1000:\t48 89 c3             \tmov    %rax,%rbx\n    1003:\tc3                   \tret\n"
+    l2 = "    2000:\t48 31 c3             \txor    %rax,%rbx\n    2003:\tc3                   \tret\n"
+    (_a1, s1), (_a2, s2) = jasmapi.rewritten_input_results({"pattern": ["zzzz"]}, l1, l2)
+    run.count("traces_validated_against_impl")
+    if s1 != "1000::mov,%rax,%rbx,|1003::ret,,|" or s2 != "2000::xor,%rax,%rbx,|2003::ret,,|":
+        run.failure("filter_chain/FILE/rewritten", f"file rewritten in place between two runs: streams {s1!r} then {s2!r}", {"kind": "lx_stream", "lines": [], "expected": ""})
 
 
     # (iv) "no line that objdump can print makes the parser fail": every operand form of G goes through a CrossHair
@@ -681,6 +708,13 @@ def c10_extra(ctx):
     run.count("traces_validated_against_impl")
     if got != "2000::nop,,|2001::ret,,|":
         run.failure("record_format/after_failed_run", f"stream of a run that follows a failed run: {got!r}", {"kind": "lx_stream", "text": got})
+    # relocatable objects / archives: addresses restart at 0 in every section, records are NOT keyed by address
+    two = "".join(f"Disassembly of section {sec}:\n\n0000000000000000 <{sym}>:\n   0:\t55                   \tpush   %rbp\n   1:\t{b:<21}\t{t}\n   {a}:\tc3                   \tret\n\n" for sec, sym, b, t, a in ((".text", "f", "48 89 e5", "mov    %rsp,%rbp", "4"), (".init.text", "g", "31 c0", "xor    %eax,%eax", "3"), (".exit.text", "h", "90", "nop", "2")))
+    got = jasmapi.file_route_stream(two)
+    want2 = "0::push,%rbp,|1::mov,%rsp,%rbp,|4::ret,,|0::push,%rbp,|1::xor,%eax,%eax,|3::ret,,|0::push,%rbp,|1::nop,,|2::ret,,|"
+    run.count("traces_validated_against_impl")
+    if got != want2:
+        run.failure("record_format/restarting_addresses", f"three sections whose addresses restart at 0: stream {got!r}, expected {want2!r}", {"kind": "lx_stream", "text": got})
     # a listing without any instruction encodes the empty list: the stream is the empty string (no stray separators)
     for nm, text in (("header_only", "\nprog:     file format elf64-x86-64\n\n"), ("empty_file", ""), ("only_dropped_lines", "Disassembly of section .data:\n\n0000000000004000 <d>:\n\t...\n    4010:\t00 00 \n")):
         got = jasmapi.file_route_stream(text)
